@@ -3,7 +3,6 @@
 package main
 
 import (
-	"crypto/sha256"
 	"crypto/tls"
 	"crypto/x509"
 	"fmt"
@@ -13,6 +12,7 @@ import (
 	"os"
 	"path/filepath"
 	"strings"
+	"sync"
 	"sync/atomic"
 
 	"verif/harness/lab/gen"
@@ -247,16 +247,32 @@ func runHistory(run *report.Run, w *world.World, c config, h []string, scratch s
 	var armed atomic.Bool
 	var fired atomic.Int64
 	if c.Backend == "disk" {
-		sum := sha256.Sum256([]byte(url))
-		id := fmt.Sprintf("%x", sum[:])
+		// the live store directories are those that exist when the download has finished (the entry and
+		// its store were created before, the staging store is created afterwards); at 'new_closed' every
+		// other directory is the staged database and vanishes
+		var snapMu sync.Mutex
+		live := map[string]bool{}
 		l2.SetExtraHook(func(name string) {
-			if name == "leveldb.update.new_closed" && armed.CompareAndSwap(true, false) {
+			if strings.HasSuffix(name, ".downloaded") {
+				snapMu.Lock()
+				live = map[string]bool{}
 				des, _ := os.ReadDir(wd)
 				for _, de := range des {
-					if de.IsDir() && de.Name() != id {
+					if de.IsDir() {
+						live[de.Name()] = true
+					}
+				}
+				snapMu.Unlock()
+			}
+			if name == "leveldb.update.new_closed" && armed.CompareAndSwap(true, false) {
+				snapMu.Lock()
+				des, _ := os.ReadDir(wd)
+				for _, de := range des {
+					if de.IsDir() && !live[de.Name()] {
 						_ = os.RemoveAll(filepath.Join(wd, de.Name()))
 					}
 				}
+				snapMu.Unlock()
 				fired.Add(1)
 			}
 		})
